@@ -24,11 +24,18 @@ PROP = dict(
     technique=("class-directed random and integer-lattice execution of every product entry point against index-loop reference sums in a wider "
                "type with calibrated rounding bounds; exact equality on lattices; bitwise comparison of spellings; algebraic relations "
                "between different entry points; ASan/UBSan on a sampled sweep"),
-    level_text=("Operand spaces are continuous, so this is sampling: about 1.9*10^7 operand sets per quick run and 1.3*10^9 per thorough run, "
-                "spread deterministically over 9 input classes per function family, all dimensions, float and double. Because dense operands "
+    level_text=("Operand spaces are continuous, so this is sampling: 2.5*10^7 case indices per quick run and 1.1*10^9 per thorough run (each index "
+                "drives every dimension and every spelling of its function family: 1.3*10^8 / 5*10^9 judged executions), spread "
+                "deterministically over 9 input classes per function family, float and double (plus mixed Vec<float> x Matrix<double> and "
+                "Vec<double> x Matrix<float>). Because dense operands "
                 "make every term of every unrolled sum matter and lattice operands are judged exactly, a wrong index, sign or operand in any "
                 "single term is a hard mismatch on essentially every case rather than a rare event."),
-    level_note=("rounding bounds are 8x..40x the worst ratio seen on > 10^7 cases, so regressions of a few ulps are invisible except on lattices; "
-                "operands that overflow, underflow or are non-finite are outside the sampled space; homogeneous results with |w| < 1e-3*sum|terms| are not judged"),
+    level_note=("bounds C (units eps*sum|terms|) vs worst ratio observed on the pristine tree over 1.13*10^9 indices: dot 16 (1.91), cross 8 (0.994), "
+                "quaternion 16 (1.86), matrix product 16 (1.92), vector x matrix 16 (1.93), homogeneous 24 (1.53), trace 16 (1.50), determinant 40 (3.00), "
+                "minors 40 (2.21), relations 96 (4.08): each >= 8x the worst ratio, so regressions of a few ulps are invisible except on lattices; "
+                "operands that overflow, underflow or are non-finite are outside the sampled space; homogeneous results with |w| < 1e-3*sum|terms of w| "
+                "are skipped (0.05% of the cases) as are exact w = 0 (sparse/lattice classes); gcc 12.2 -O2 (SLP vectorizer) drops a "
+                "double->float->double round trip through a local temporary, so a float-typed temporary slipped into a double path is visible "
+                "only in the -O1 sanitizer configuration of this check"),
     monitors=[M("c05_products", ["c05_products.cpp", "c05_products_mat.cpp", "c05_products_det.cpp"], san_scale=0.05, san_scale_thorough=0.01)],
 )
